@@ -60,6 +60,30 @@ Proof.
   - intros o Ho. apply Hs in Ho. lia.
 Qed.
 
+Lemma root_create_repr : forall k a unk i s s' os, repr s os -> parent k = None ->
+  root_create_id a unk i s = inr s' ->
+  repr (set_born s' (born s' ++ [(i, k)])) (os ++ [newo i k a]).
+Proof.
+  intros k a unk i s s' os Hr Hp H. assert (k = KA) as -> by (destruct k; try discriminate; reflexivity).
+  unfold root_create_id in H. destruct unk; [discriminate|].
+  assert (Ev : argval a KA = match validate (arg_of a KA) with inr v => v | inl _ => None end) by reflexivity.
+  destruct (validate (arg_of a KA)) as [e|v]; [discriminate|]. unfold sql_insert in H.
+  destruct (notnull KA && isnone v); [discriminate|].
+  destruct (taken v None (tab s KA)); [discriminate|]. cbn [orb] in H.
+  destruct (has i (tab s KA)) eqn:Hh; [discriminate|]. inversion H; subst s'; clear H.
+  destruct Hr as [Hnd [Htab [Hborn Hs]]]. repeat split.
+  - unfold aids. rewrite map_app. cbn. apply nodup_snoc; [exact Hnd|].
+    intro Hin. rewrite Htab, has_proj in Hh by exact Hnd.
+    destruct (afind i os) as [o|] eqn:Hf; [rewrite memc_root in Hh; discriminate|].
+    apply afind_none in Hf. exact (Hf Hin).
+  - intro l. rewrite proj_app. cbn [proj flat_map]. unfold pr1. cbn [newo ak aid av]. rewrite <- Htab.
+    destruct l; cbn; rewrite ?app_nil_r; try reflexivity. unfold arow. cbn. rewrite Ev. reflexivity.
+  - cbn. rewrite Hborn, map_app. reflexivity.
+  - intros o Ho. cbn. apply in_app_or in Ho. destruct Ho as [Ho|[<-|[]]].
+    + apply Hs in Ho. lia.
+    + cbn. lia.
+Qed.
+
 Lemma repr_set_refs : forall s os r, repr s os -> repr (set_refs s r) os.
 Proof.
   intros s os r [A [B [C D]]]. repeat split; try assumption.
@@ -69,11 +93,18 @@ Qed.
 Lemma step_repr : forall auto s os o, repr s os -> trigger auto s o = false ->
   exists os', repr (fst (step auto s o)) os'.
 Proof.
-  intros auto s os o Hr G. destruct o as [k a unk|e id|e id col v|e id kvs|k f|k col v|k v|e id|id|id]; cbn [step].
-  - (* Create *)
+  intros auto s os o Hr G.
+  assert (DC : forall k a unk, trig_create auto s k a unk = false -> exists os', repr (fst (do_create auto s k a unk)) os').
+  { intros k a unk G'. unfold do_create.
     destruct (creat auto (rev (chain k)) None a unk s) as [s' [x|id]] eqn:H; cbn [fst].
-    + exists os. cbn in G. unfold trig_create in G. apply (create_repr_err _ _ _ _ _ _ _ _ Hr H G).
-    + exists (os ++ [newo id k a]). apply (create_repr_ok _ _ _ _ _ _ _ _ Hr H).
+    + exists os. unfold trig_create in G'. apply (create_repr_err _ _ _ _ _ _ _ _ Hr H G').
+    + exists (os ++ [newo id k a]). apply (create_repr_ok _ _ _ _ _ _ _ _ Hr H). }
+  destruct o as [k a unk|k a unk i|e id|e id col v|e id kvs|k f|k col v|k v|e id|id|id]; cbn [step].
+  - (* Create *) apply DC. exact G.
+  - (* CreateId *)
+    cbn [trigger] in G. destruct (parent k) eqn:Hp; [apply DC; exact G|].
+    destruct (root_create_id a unk i s) as [x|s'] eqn:H; cbn [fst]; [exists os; exact Hr|].
+    exists (os ++ [newo i k a]). apply (root_create_repr _ _ _ _ _ _ _ Hr Hp H).
   - exists os. exact Hr.
   - (* SetAttr *)
     destruct (get_obj s e id) as [x|ob]; [exists os; exact Hr|].
